@@ -292,6 +292,12 @@ type Result struct {
 	// was at process start. Retire: a serving worker exits after this result.
 	GlobalsDirty bool `json:"globals_dirty,omitempty"`
 	Retire       bool `json:"retire,omitempty"`
+	// Crashed: the process died while executing this scenario; Ops and
+	// Violations are what it had streamed before dying, InFlight the
+	// operations that had started and not finished.
+	Crashed   bool   `json:"crashed,omitempty"`
+	CrashText string `json:"crash_text,omitempty"`
+	InFlight  []Ref  `json:"in_flight,omitempty"`
 }
 
 // Describe mode ---------------------------------------------------------
